@@ -166,6 +166,30 @@ def deepObjN : Nat → DS α → Nat → DS α × Nat
 def copyModuleDeep (f : Nat) (h : Heap α) (o : Nat) : Heap α × Nat :=
   ((deepObjN f ⟨h, [], []⟩ o).1.h, (deepObjN f ⟨h, [], []⟩ o).2)
 
+/-- serialisation of BOTH views, nested: brackets, scalars, names, positions -/
+inductive Dk (α : Type) where
+  | lb
+  | rb
+  | a (x : α)
+  | key (s : String)
+  | pos (p : Int)
+  deriving DecidableEq
+
+/-- everything an object shows, to observation depth `k`: its tokens (nested results expanded), then its name table in
+    order — every name with all its occurrences (position, value; nested results expanded) — then its list-all
+    names.  `as_list`, `as_dict`, `dump`, `keys`, `len`, `[name]` are functions of this. -/
+def dumpN : Nat → Heap α → Nat → List (Dk α)
+  | 0, _, _ => [.lb, .rb]
+  | k + 1, h, o =>
+    .lb :: (((h.lists (h.objs o).lst).flatMap (fun v => match v with
+      | .atom a => [Dk.a a]
+      | .ref n => dumpN k h n)) ++
+    ((h.dicts (h.objs o).dct).flatMap (fun e => Dk.key e.1 :: (h.occs e.2).flatMap (fun vp => Dk.pos vp.2 ::
+      (match vp.1 with
+        | .atom a => [Dk.a a]
+        | .ref n => dumpN k h n)))) ++
+    ((h.objs o).all.map Dk.key ++ [.rb]))
+
 /-- the objects met by following token 0, `k` times, from `o` (with `o` itself first) -/
 def tokPath (h : Heap α) : Nat → Nat → List Nat
   | 0, o => [o]
